@@ -88,6 +88,27 @@ pub fn run_norm(args: &Args) -> (u64, u64) {
     for s in &strings {
         norm_all(&mut tr, s);
     }
+    // construction is a pure function of the input: related strings one after the other (A, B, A): another case, one
+    // character changed or appended, the same first eight bytes, the same length
+    {
+        let bases: Vec<String> = strings.iter().filter(|s| !s.is_empty() && s.len() <= 16 && s.is_ascii()).take(if thorough { 400 } else { 40 }).cloned().collect();
+        for (k, a) in bases.iter().enumerate() {
+            let mut bb = a.clone().into_bytes();
+            let pos = k % bb.len();
+            let variant: String = match k % 5 {
+                0 => a.to_ascii_lowercase(),
+                1 => { bb[pos] = if bb[pos] == b'Q' { b'R' } else { b'Q' }; String::from_utf8_lossy(&bb).to_string() }
+                2 => format!("{}z", a),
+                3 => { let l = bb.len(); bb[l - 1] = b'{'; String::from_utf8_lossy(&bb).to_string() }
+                _ => a.chars().rev().collect(),
+            };
+            norm_all(&mut tr, a);
+            norm_all(&mut tr, &variant);
+            norm_all(&mut tr, a);
+            norm_cmp(&mut tr, a, &variant);
+            norm_cmp(&mut tr, &variant, a);
+        }
+    }
     // equality / order / hash / display between inputs with equal or different normalisations
     let valid: Vec<&String> = strings.iter().filter(|s| NormalizedString::new(s.as_str()).is_ok()).collect();
     let pairs = if thorough { 20000 } else { 2000 };
@@ -281,6 +302,23 @@ pub fn run_pin(args: &Args) -> (u64, u64) {
     for s in &seeds {
         pin_event(&mut tr, 1023456789, *s, &ss, &cs);
     }
+    // the functions are pure: sequences of related seeds (quotients and residues of the previous seed by 10!, 9!, 10;
+    // the previous seed again; 0) must each give the specification's hash whatever was asked before
+    tr.reset("pin-sequences");
+    {
+        let mut firsts: Vec<u32> = vec![0, 1, 5, 3628799, 3628800, 3628801, 7257605, 18_144_001, 362_880, 1_000_000, 4_294_967_295, 4_293_870_400];
+        for _ in 0..(if thorough { 200 } else { 12 }) {
+            firsts.push(rng2.gen());
+        }
+        for a in firsts {
+            for c in [a / 3_628_800, a % 3_628_800, a / 362_880, a % 362_880, a / 10, 0, a.wrapping_mul(3_628_800), a] {
+                pin_event(&mut tr, 1023456789, a, &ss, &cs);
+                if let Some(h) = pin_event(&mut tr, 1023456789, c, &ss, &cs) {
+                    pin_verify_event(&mut tr, 1023456789, c, &ss, &cs, &h);
+                }
+            }
+        }
+    }
     // block digests over seed ranges (residues modulo 10! exhaustively in thorough) and wrap-around seeds
     let blocks: Vec<u32> = if thorough { (0..886).collect() } else { vec![0, 1, 9, 443, 885] };
     for blk in blocks {
@@ -418,6 +456,31 @@ pub fn run_integrity(args: &Args) -> (u64, u64) {
         integ_event(&mut tr, "windows", &files, &s2, &k2);
         integ_event(&mut tr, "mac", &files, &s2, &k2);
         integ_event(&mut tr, "generic", &[data.clone()], &s2, &k2);
+    }
+    // the functions are pure: the same buffers changed IN PLACE and checked again (same salt and key), a result
+    // asked for twice, buffers of equal length at the same address - nothing may be remembered from an earlier call
+    {
+        tr.reset("integrity-inplace");
+        let mut one = vec![vec![0u8; 300]];
+        rng.fill_bytes(&mut one[0]);
+        let mut five: Vec<Vec<u8>> = (0..5).map(|i| vec![i as u8 + 1; 40 + i]).collect();
+        for round in 0..(if thorough { 40 } else { 8 }) {
+            integ_event(&mut tr, "generic", &one, &salt, &key);
+            integ_event(&mut tr, "generic", &one, &salt, &key);
+            integ_event(&mut tr, "windows", &five, &salt, &key);
+            integ_event(&mut tr, "mac", &five, &salt, &key);
+            let pos = (round * 37) % one[0].len();
+            one[0][pos] ^= 1 << (round % 8);
+            let fi = round % 5;
+            let fl = five[fi].len();
+            five[fi][(round * 11) % fl] ^= 0x80;
+            if round % 4 == 3 {
+                // a new allocation of the same length, most likely at the address just freed
+                let n = one[0].len();
+                one = vec![vec![0u8; n]];
+                rng.fill_bytes(&mut one[0]);
+            }
+        }
     }
     for _ in 0..(if thorough { 200 } else { 20 }) {
         let mut s = [0u8; 16];
@@ -608,6 +671,26 @@ pub fn run_matrix(args: &Args) -> (u64, u64) {
             }
         }
     }
+    // the coordinate sequence is a pure function of (count, height, width, seed): related seeds one after the other
+    // (quotients and residues by the number of cells, the previous seed again, 0, small seeds with several rounds),
+    // and the same seed under different geometries
+    {
+        tr.reset("matrix-sequences");
+        let key = [5u8; 40];
+        let mut firsts: Vec<u64> = vec![0, 1, 5, 79, 80, 81, 6399, 6400, 512_000, u64::MAX, 14574472801782155463];
+        for _ in 0..(if thorough { 60 } else { 6 }) {
+            firsts.push(rng.gen());
+        }
+        for a in firsts {
+            for (w, h, count) in [(8u8, 10u8, 3u8), (10, 8, 3), (2, 2, 4), (1, 5, 2), (8, 10, 80)] {
+                let cells = w as u64 * h as u64;
+                let rounds: Vec<u8> = (0..count.min(12)).collect();
+                for c in [a, a / cells, a % cells, a / (cells * (cells - 1).max(1)), 0, a] {
+                    coord_events(&mut tr, count, h, c, w, &key, &rounds);
+                }
+            }
+        }
+    }
     tr.finish()
 }
 
@@ -727,6 +810,44 @@ pub fn run_rng(args: &Args) -> (u64, u64) {
     draws_event(&mut tr, "PinGridSeed", "get_pin_grid_seed", o, r, u, s, json!({}));
     let (o, r, u, s) = batch(n, threads, |_| wow_srp::matrix_card::get_matrix_card_seed().to_le_bytes().to_vec());
     draws_event(&mut tr, "MatrixSeed", "get_matrix_card_seed", o, r, u, s, json!({}));
+    // values drawn one after the other on one thread by DIFFERENT calls in a mixed order (per thread: one stream)
+    {
+        let streams = if thorough { 24 } else { 4 };
+        let per = 320usize;
+        let mut hs = vec![];
+        for t in 0..streams {
+            let seed = args.seed ^ (t as u64) << 16;
+            hs.push(std::thread::spawn(move || {
+                let mut r = StdRng::seed_from_u64(seed);
+                let mut obs: Vec<Vec<u8>> = vec![];
+                let mut kinds: Vec<&'static str> = vec![];
+                for k in 0..per {
+                    // thread 0: seed, salt strictly alternating; thread 1: one seed then runs of salts; others random mixes
+                    let pick = match t { 0 => k % 2, 1 => if k % 5 == 0 { 0 } else { 1 }, _ => r.gen_range(0..9) };
+                    let (kind, v): (&'static str, Vec<u8>) = match pick {
+                        0 => ("PinGridSeed", wow_srp::pin::get_pin_grid_seed().to_le_bytes().to_vec()),
+                        1 => ("PinSalt", wow_srp::pin::get_pin_salt().to_vec()),
+                        2 => ("IntegritySalt", wow_srp::integrity::get_salt_value().to_vec()),
+                        3 => ("MatrixSeed", wow_srp::matrix_card::get_matrix_card_seed().to_le_bytes().to_vec()),
+                        4 => ("VanillaSeed", wow_srp::vanilla_header::ProofSeed::new().seed().to_le_bytes().to_vec()),
+                        5 => ("TbcSeed", wow_srp::tbc_header::ProofSeed::new().seed().to_le_bytes().to_vec()),
+                        6 => ("WrathSeed", wow_srp::wrath_header::ProofSeed::new().seed().to_le_bytes().to_vec()),
+                        7 => ("Salt", SrpVerifier::from_username_and_password(NS::new("A").unwrap(), NS::new("B").unwrap()).salt().to_vec()),
+                        _ => ("MatrixSeed", wow_srp::matrix_card::get_matrix_card_seed().to_le_bytes().to_vec()),
+                    };
+                    obs.push(v);
+                    kinds.push(kind);
+                }
+                clear_hooks();
+                (obs, kinds)
+            }));
+        }
+        for h in hs {
+            let (obs, kinds) = h.join().expect("stream thread");
+            let o: Vec<Value> = obs.iter().map(|v| b(v)).collect();
+            tr.ev(json!({"ev": "DrawStream", "obs": o, "kinds": kinds}));
+        }
+    }
     let cards = if thorough { 16000 } else { 2560 };
     let (o, r, u, s) = batch(cards, threads, |_| MatrixCard::new(2, 10, 8).data().to_vec());
     draws_event(&mut tr, "MatrixDigits", "MatrixCard::new(2,10,8)", o, r, u, s, json!({}));
